@@ -1,6 +1,7 @@
 // C08 harness: nitro::format (operator% / args / str / conversion / operator<<) and exception messages
 #include <nitro/format/format.hpp>
 #include <nitro/except/raise.hpp>
+#include <ios>
 #include <sstream>
 #include <string>
 extern "C" {
@@ -9,6 +10,8 @@ int k_fmt(const char* f, unsigned fl, unsigned nargs, const char* a0, unsigned l
           unsigned l2, int how, int via, char* out, unsigned cap, unsigned* len);
 int k_fmt_int(const char* f, unsigned fl, int v, char* out, unsigned cap, unsigned* len);
 int k_what(const char* a, unsigned al, int n, const char* b, unsigned bl, char c, char* out, unsigned cap, unsigned* len);
+// two exceptions raised one after the other on one thread; the FIRST one has a sticky stream manipulator (std::hex) among its arguments; out = message of the second
+int k_what_twice(const char* a, unsigned al, int n, int n2, char* out1, unsigned* len1, char* out, unsigned cap, unsigned* len);
 }
 static unsigned put(char* d, unsigned cap, const std::string& s)
 {
@@ -87,6 +90,32 @@ int k_what(const char* a, unsigned al, int n, const char* b, unsigned bl, char c
     try
     {
         nitro::raise(std::string(a, al), n, std::string(b, bl), c);
+    }
+    catch (nitro::except::exception& e)
+    {
+        *len = put(out, cap, std::string(e.what()));
+        return 1;
+    }
+    catch (...)
+    {
+        return 2;
+    }
+    return 0;
+}
+
+int k_what_twice(const char* a, unsigned al, int n, int n2, char* out1, unsigned* len1, char* out, unsigned cap, unsigned* len)
+{
+    try
+    {
+        nitro::raise(std::string(a, al), std::hex, n);
+    }
+    catch (nitro::except::exception& e)
+    {
+        *len1 = put(out1, cap, std::string(e.what()));
+    }
+    try
+    {
+        nitro::raise(n2, std::string(a, al));
     }
     catch (nitro::except::exception& e)
     {
